@@ -111,6 +111,11 @@ func (b *c10Body) Read(p []byte) (int, error) {
 		return 0, errors.New("http: read on closed response body")
 	}
 	b.reads++
+	// the transport stops delivering body bytes once the request context has ended (worst case: nothing
+	// was buffered ahead); a caller that cancels its timeout context before reading the body gets this
+	if err := b.ctx.Err(); err != nil {
+		return 0, err
+	}
 	if len(p) == 0 {
 		return 0, nil
 	}
